@@ -13,8 +13,18 @@
  *       the library's own mock terminal (tickit_mockterm_new), second configuration: PEN as above, the sentinel pattern is
  *       printed through the terminal API, then the cursor is put at a SEED-derived position.  Observation: the mock
  *       terminal's log (g / t / e / p<final>), its cursor, tt->pen, and the display text and pen of every cell.
+ *   termx TL TC BUF CAPS PEN SEED
+ *       third configuration: a terminal object built with the library's real xterm driver (termtype "xterm") whose
+ *       bytes go through the output buffer of src/term.c to an output function that records every chunk it is handed.
+ *       CAPS: bit 0 = the terminal answered the DECRQSS probe with an RGB8 colour, bit 1 = with ':' sub-parameters (fed
+ *       through tickit_term_input_push_bytes as a terminal would).  PEN as above; the sentinel pattern is printed through
+ *       the terminal API (unbuffered), the cursor is put at a SEED-derived position, and then the output buffer is set to
+ *       BUF bytes (tickit_term_set_output_buffer; 0 = none).  Observation: every byte written so far (after the driver's
+ *       start-up probes), tt->pen and the capability bits as the driver reports them.
  *   flush
- *       tickit_renderbuffer_flush_to_term(rb, tt).
+ *       tickit_renderbuffer_flush_to_term(rb, tt); in the third configuration followed by tickit_term_flush(tt):
+ *       r=ok out=<chunks delivered during the flush, ','-separated> fl=<chunk delivered by tickit_term_flush> pen=<tt->pen>
+ *       rb=<dump>.  The bytes are interpreted by the VT screen of lean/Tickit/Model/RBFlushX.lean.
  * Observation of `term`/`flush`:
  *   r=<-|ok> [log=<requests>] cur=<l>,<c> pen=<tt->pen> nm=<#MAYBE erases> grid=<rows '/', cells '|'> [rb=<dump>]
  *   request log: g<l>,<c> | p<delta><final> | t<hex of str[0..len)> | e<count>,<moveend>, separated by ';'
@@ -67,6 +77,62 @@ typedef struct {
 static TickitTerm *tt;
 static GridDrv *gd;
 static int mock_lines, mock_cols;   /* > 0: tt is the library's mock terminal (tickit_mockterm_new) */
+
+static void fmt_pen(FILE *fh, const TickitPen *pen);
+
+/* third configuration: the chunks the output function of a real xterm-driver terminal has been handed */
+typedef struct { unsigned char *bs; size_t n; } XChunk;
+static int x_mode;
+static XChunk *x_chunks;
+static size_t x_nchunks, x_capchunks;
+
+static void x_outfunc(TickitTerm *t, const char *bytes, size_t len, void *user)
+{
+  (void)t; (void)user;
+  if(!bytes) return;   /* (NULL, 0) announces the end of the terminal */
+  if(x_nchunks == x_capchunks) {
+    x_capchunks = x_capchunks ? 2 * x_capchunks : 64;
+    x_chunks = realloc(x_chunks, x_capchunks * sizeof *x_chunks);
+  }
+  x_chunks[x_nchunks].bs = malloc(len ? len : 1);
+  memcpy(x_chunks[x_nchunks].bs, bytes, len);
+  x_chunks[x_nchunks].n = len;
+  x_nchunks++;
+}
+
+static void x_reset(void)
+{
+  for(size_t i = 0; i < x_nchunks; i++) free(x_chunks[i].bs);
+  x_nchunks = 0;
+}
+
+/* chunks [from, to): hex, separated by `sep` (0: concatenated); `-` when there is none, `.` for an empty chunk */
+static void x_obs_chunks(size_t from, size_t to, int sep)
+{
+  char *buf = NULL; size_t len = 0;
+  FILE *fh = open_memstream(&buf, &len);
+  size_t total = 0;
+  for(size_t i = from; i < to; i++) {
+    if(sep && i > from) fputc(sep, fh);
+    if(sep && x_chunks[i].n == 0) fputc('.', fh);
+    for(size_t k = 0; k < x_chunks[i].n; k++) fprintf(fh, "%02x", x_chunks[i].bs[k]);
+    total += x_chunks[i].n;
+  }
+  if(from == to || (!sep && total == 0)) fputc('-', fh);
+  fclose(fh);
+  obs_raw(buf, len);
+  free(buf);
+}
+
+static void x_obs_pen(void)
+{
+  char *buf = NULL; size_t len = 0;
+  FILE *fh = open_memstream(&buf, &len);
+  fmt_pen(fh, tickit_termdrv_current_pen(tickit_term_get_driver(tt)));
+  fclose(fh);
+  obs_raw(buf, len);
+  free(buf);
+}
 
 static void fmt_pen(FILE *fh, const TickitPen *pen)
 {
@@ -388,20 +454,95 @@ static void obs_mock(void)
   free(buf);
 }
 
-static void engine_begin(void) { rb_engine_begin(); tt = NULL; gd = NULL; mock_lines = mock_cols = 0; }
+static void engine_begin(void) { rb_engine_begin(); tt = NULL; gd = NULL; mock_lines = mock_cols = 0; x_mode = 0; }
 static void engine_end(void)
 {
   if(tt) tickit_term_unref(tt);   /* destroys the driver, too */
   tt = NULL; gd = NULL;
+  x_reset();
+  free(x_chunks); x_chunks = NULL; x_capchunks = 0;
   rb_engine_end();
 }
 
 static void engine_op(int argc, char **argv)
 {
   const char *op = argc ? argv[0] : "";
+  if(strcmp(op, "termx") == 0 && argc == 7) {
+    /* termx TL TC BUF CAPS PEN SEED: the real xterm driver behind an output buffer and a recording output function */
+    if(tt) { tickit_term_unref(tt); tt = NULL; gd = NULL; }
+    mock_lines = mock_cols = 0; x_mode = 0;
+    int tl = atoi(argv[1]), tc = atoi(argv[2]);
+    long bufsz = atol(argv[3]);
+    int caps = atoi(argv[4]);
+    if(tl < 1 || tc < 1 || tl > 1000 || tc > 1000 || bufsz < 0 || bufsz > 1000000) { obs("bad-op"); return; }
+    x_reset();
+    tt = tickit_term_build(&(struct TickitTermBuilder){ .termtype = "xterm", .output_func = x_outfunc });
+    if(!tt) { obs("bad-op"); return; }
+    x_mode = 1;
+    {
+      /* the terminal's answer to the DECRQSS probe of the SGR state: decides cap.rgb8 and cap.csi_sub_colon */
+      int rgb8 = caps & 1, colon = (caps & 2) != 0;
+      char sep = colon ? ':' : ';';
+      char reply[64];
+      if(rgb8) snprintf(reply, sizeof reply, "\033P1$r38%c2%c0%c1%c2m\033\\", sep, sep, sep, sep);
+      else     snprintf(reply, sizeof reply, "\033P1$r38%c5%c255m\033\\", sep, sep);
+      tickit_term_input_push_bytes(tt, reply, strlen(reply));
+    }
+    tickit_term_set_size(tt, tl, tc);
+    tickit_term_flush(tt);
+    x_reset();                       /* forget the driver's start-up probes */
+    if(strcmp(argv[5], "NONE") != 0) {
+      TickitPen *pen = parse_pen(argv[5]);
+      if(pen) { tickit_term_setpen(tt, pen); tickit_pen_unref(pen); }
+    }
+    unsigned long seed = strtoul(argv[6], NULL, 10);
+    char *row = malloc(tc + 1);
+    for(int l = 0; l < tl; l++) {
+      for(int c = 0; c < tc; c++)
+        row[c] = 0x21 + (seed + 7 * (unsigned long)l + 3 * (unsigned long)c) % 94;
+      tickit_term_goto(tt, l, 0);
+      tickit_term_printn(tt, row, tc);
+    }
+    free(row);
+    tickit_term_goto(tt, (int)(seed % tl), (int)((seed / 7) % tc));
+    int v_rgb8 = -1, v_colon = -1;
+    tickit_term_getctl_int(tt, tickit_termctl_lookup("xterm.cap_rgb8"), &v_rgb8);
+    tickit_term_getctl_int(tt, tickit_termctl_lookup("xterm.cap_csi_sub_colon"), &v_colon);
+    obs("r=- out=");
+    x_obs_chunks(0, x_nchunks, 0);
+    obs(" pen=");
+    x_obs_pen();
+    obs(" caps=%d", (v_rgb8 ? 1 : 0) | (v_colon ? 2 : 0));
+    x_reset();
+    tickit_term_set_output_buffer(tt, (size_t)bufsz);
+    return;
+  }
+  if(strcmp(op, "flush") == 0 && argc == 1 && x_mode) {
+    if(!rb || !tt) { obs("bad-op"); return; }
+    x_reset();
+    tickit_renderbuffer_flush_to_term(rb, tt);
+    size_t during = x_nchunks;
+    tickit_term_flush(tt);
+    obs("r=ok out=");
+    x_obs_chunks(0, during, ',');
+    obs(" fl=");
+    x_obs_chunks(during, x_nchunks, ',');
+    obs(" pen=");
+    x_obs_pen();
+    obs(" rb=");
+    char *buf = NULL; size_t len = 0;
+    FILE *fh = open_memstream(&buf, &len);
+    tickit_renderbuffer_verif_dump(rb, fh);
+    fclose(fh);
+    obs_raw(buf, len);
+    free(buf);
+    x_reset();
+    return;
+  }
   if(strcmp(op, "termm") == 0 && argc == 5) {
     /* termm TL TC PEN SEED: the library's own mock terminal; the sentinel pattern is printed through the terminal API */
     if(tt) { tickit_term_unref(tt); tt = NULL; gd = NULL; }
+    x_mode = 0;
     int tl = atoi(argv[1]), tc = atoi(argv[2]);
     if(tl < 1 || tc < 1 || tl > 1000 || tc > 1000) { obs("bad-op"); return; }
     tt = tickit_mockterm_new(tl, tc);
@@ -442,7 +583,7 @@ static void engine_op(int argc, char **argv)
     return;
   }
   if(strcmp(op, "term") == 0 && argc == 7) {
-    mock_lines = mock_cols = 0;
+    mock_lines = mock_cols = 0; x_mode = 0;
     if(tt) { tickit_term_unref(tt); tt = NULL; gd = NULL; }
     int tl = atoi(argv[1]), tc = atoi(argv[2]);
     if(tl < 0 || tc < 0 || tl > 1000 || tc > 1000) { obs("bad-op"); return; }
